@@ -73,7 +73,8 @@ def same_iterator(prog, body, it_arg, ch, at_block):
     v = prog.simp(s.val(pk, at_block, "term"), body)
     if v[0] in ("call", "callm") and v[1] == "Iterator::map" and len(v[2]) == 2:
         inner, clo = v[2]
-        if inner[0] == "callm" and inner[1] == "Iterator::by_ref" and inner[2][0] == ("mutref", src_pk):
+        if (inner[0] == "callm" and inner[1] == "Iterator::by_ref" and inner[2][0] == ("mutref", src_pk)) \
+                or inner == ("mutref", src_pk):
             cb, ret = closure_return_term(prog, clo)
             if cb is not None and ret[0] == "field" and ret[1][0] == "param" and ret[2] == "1":
                 return "by_ref().map(|(_, ch)| ch) view of the same iterator"
